@@ -35,11 +35,14 @@ typedef struct {
     unsigned mask;    /* bit per VK_ kind */
     long     fired;   /* number of calls failed so far */
     int      first_kind;
+    long     at2;     /* -1 = off; a second, independent single failure (plain) at this call index */
+    long     fired2;
 } vfs_fault_t;
 extern vfs_fault_t vfs_fault;
 extern long        vfs_ncalls;              /* calls counted against the plan (by mask) */
 extern long        vfs_calls_by_kind[VK_NKINDS];
 void vfs_fault_set(long at, int variant, int sticky, unsigned mask);
+void vfs_fault_set2(long at2); /* after vfs_fault_set */
 /* optional trace of the kind of every counted call (for enumerating applicable fault variants) */
 extern unsigned char *vfs_kind_trace;
 extern long           vfs_kind_trace_n, vfs_kind_trace_cap;
